@@ -99,6 +99,8 @@ def classify(hist_lines, rel_idx, verdict):
         tags.append("an_argument_has_an_empty_disjunct")
     if fam == "lin" and aliased and "info_rx=S" in tags:
         tags.append("sparse_receiver_is_its_own_argument")
+    if fam == "pps" and aliased and len(args) == 2 and st["kind"] == "op":
+        tags.append("powerset_receiver_is_its_own_argument")
     return site, tags, st
 
 
